@@ -33,6 +33,7 @@ import (
 
 const (
 	c16SigF5        = "revoke-retry-skips-crl-rebuild"
+	c16SigNumber    = "crl-number-reused-after-failed-rebuild"
 	c16ExpiryMargin = 3 * time.Second // obligations end this long before notAfter
 )
 
@@ -73,12 +74,15 @@ type c16Sys struct {
 
 	lastNum map[string]*big.Int
 	lastRaw map[string][]byte
+	// numberRisk[issuer]: an injected fault interrupted a rebuild after at least one CRL had been stored but
+	// before crls/config (which holds the CRL number counters) was stored; cleared at the next new CRL seen.
+	numberRisk map[string]int // step of the interrupting fault; 0 = none
 
 	step    int
 	history []string
 
 	// coverage of this case
-	nFaultRevoke, nFaultAfterRecord, nCrash, nRestart, nRotate, nTidy, nF5 int
+	nFaultRevoke, nFaultAfterRecord, nCrash, nRestart, nRotate, nTidy, nF5, nNumberReuse, nInterruptedRebuild int
 }
 
 func (s *c16Sys) logf(format string, args ...any) {
@@ -94,7 +98,11 @@ func (s *c16Sys) detail() map[string]any {
 }
 
 func (s *c16Sys) violation(sig, format string, args ...any) bool {
-	return s.rec.Violation(s.rt, sig, s.detail(), "%s\nhistory:\n  %s", fmt.Sprintf(format, args...), strings.Join(s.history, "\n  "))
+	raw := fmt.Sprintf(format, args...)
+	d := s.detail()
+	d["message"] = raw
+	s.rt.Logf("violation %s: %s\nhistory:\n  %s", sig, raw, strings.Join(s.history, "\n  "))
+	return s.rec.Violation(s.rt, sig, d, "%s", vxStable(raw))
 }
 
 func (s *c16Sys) write(path string, data map[string]any) (*logical.Response, error) {
@@ -116,7 +124,7 @@ func (s *c16Sys) mustWrite(what, path string, data map[string]any) *logical.Resp
 // c16Setup builds the mount: nIssuers in 1..3; issuer 0 and 1 are roots, issuer 2 is an intermediate of issuer 0.
 func c16Setup(rt *rapid.T, rec *verifx.Recorder, nIssuers int, autoRebuild bool) *c16Sys {
 	s := &c16Sys{rt: rt, rec: rec, fs: &vxFaultStorage{Storage: &logical.InmemStorage{}}, issuerCert: map[string]*x509.Certificate{},
-		bySerial: map[string]*c16Cert{}, lastNum: map[string]*big.Int{}, lastRaw: map[string][]byte{}, expiry: "72h"}
+		bySerial: map[string]*c16Cert{}, lastNum: map[string]*big.Int{}, lastRaw: map[string][]byte{}, numberRisk: map[string]int{}, expiry: "72h"}
 	b, err := vxBackend(s.fs, time.Hour, 24*time.Hour)
 	if err != nil {
 		rt.Fatalf("harness: backend: %v", err)
@@ -246,7 +254,15 @@ func (s *c16Sys) check() {
 		if s.lastRaw[name] != nil && !bytes.Equal(raw, s.lastRaw[name]) {
 			newBuild = true
 			if crl.Number.Cmp(s.lastNum[name]) <= 0 {
-				s.violation("crl-number-not-increasing", "issuer %s: a different CRL is served with number %s, the previous one had %s", name, crl.Number, s.lastNum[name])
+				sig := "crl-number-not-increasing"
+				if s.numberRisk[name] > 0 {
+					sig = c16SigNumber
+					s.nNumberReuse++
+				}
+				s.violation(sig, "issuer %s: a different CRL is served with number %s, the previous one had %s (a rebuild was interrupted by an injected fault after a CRL was stored and before crls/config was: %v)", name, crl.Number, s.lastNum[name], s.numberRisk[name] > 0)
+			}
+			if s.numberRisk[name] > 0 && s.step > s.numberRisk[name] {
+				s.numberRisk[name] = 0 // first CRL built by a later action: from here on the counters are persisted again
 			}
 		}
 		s.lastRaw[name], s.lastNum[name] = raw, crl.Number
@@ -498,6 +514,9 @@ func (s *c16Sys) actFaultRevoke() {
 		s.violation("revoke-failed-without-fault", "revoke of %s failed although the fault did not fire: %v", c.serial, err)
 		return
 	}
+	if fired {
+		s.noteInterruptedRebuild(ops)
+	}
 	if fired && err != nil && written {
 		c.faultAfterRecord = true
 		s.nFaultAfterRecord++
@@ -533,6 +552,27 @@ func (s *c16Sys) actFaultRevoke() {
 	s.noteSuccess(c, resp, how)
 }
 
+// noteInterruptedRebuild inspects the operations of a faulted call: a CRL stored, crls/config not yet stored.
+func (s *c16Sys) noteInterruptedRebuild(ops []string) {
+	crl := false
+	for _, o := range ops {
+		if strings.HasSuffix(o, " FAULT") {
+			break
+		}
+		if o == "put crls/config" {
+			crl = false
+		} else if strings.HasPrefix(o, "put crls/") {
+			crl = true
+		}
+	}
+	if crl {
+		s.nInterruptedRebuild++
+		for _, n := range s.issuers {
+			s.numberRisk[n] = s.step
+		}
+	}
+}
+
 func c16FailedOp(ops []string) string {
 	for _, o := range ops {
 		if strings.HasSuffix(o, " FAULT") {
@@ -557,6 +597,9 @@ func (s *c16Sys) actRotate(withFault bool) {
 	if err != nil && !fired {
 		s.violation("rotate-failed-without-fault", "crl/rotate failed although no fault fired: %v", err)
 		return
+	}
+	if fired {
+		s.noteInterruptedRebuild(ops)
 	}
 	if withFault && f.Crash && fired {
 		s.nCrash++
@@ -678,6 +721,9 @@ func c16Run(t *testing.T, rec *verifx.Recorder) {
 		nIss := rapid.SampledFrom([]int{2, 1, 3}).Draw(rt, "nIssuers")
 		s := c16Setup(rt, rec, nIss, rapid.IntRange(0, 4).Draw(rt, "autoRebuildAtStart") == 4)
 		defer s.close()
+		// short-lived certificates and real waiting ("until it expires") only in a few cases: they cost seconds
+		slow := c15Chance(rt, "slowCase", verifx.Scale(4, 10))
+		waits := 0
 		defer func() {
 			class, nt := s.classify()
 			nRev := 0
@@ -696,11 +742,15 @@ func c16Run(t *testing.T, rec *verifx.Recorder) {
 			rec.Class("faulted-revoke-calls", int64(s.nFaultRevoke))
 			rec.Class("fault-after-record", int64(s.nFaultAfterRecord))
 			rec.Class("crash-restarts", int64(s.nCrash))
+			rec.Class("rebuilds-interrupted-between-crl-and-counter", int64(s.nInterruptedRebuild))
 			rec.Class("restarts", int64(s.nRestart))
 			rec.Class("rotates", int64(s.nRotate))
 			rec.Class("tidies", int64(s.nTidy))
 			if s.nFaultRevoke == 0 {
 				rec.Class("cases-without-faulted-revoke", 1)
+			}
+			if slow {
+				rec.Class("slow-cases", 1)
 			}
 		}()
 		step := func(f func()) func(*rapid.T) {
@@ -723,8 +773,17 @@ func c16Run(t *testing.T, rec *verifx.Recorder) {
 			"j-tidy":           step(s.actTidy),
 			"k-default-issuer": step(s.actDefault),
 			"l-periodic":       step(s.actPeriodic),
-			"m-issue-short":    step(func() { s.issue("short") }),
+			"m-issue-short": step(func() {
+				if !slow {
+					rt.Skip("not a slow case")
+				}
+				s.issue("short")
+			}),
 			"n-wait": step(func() {
+				if !slow || waits >= 3 {
+					rt.Skip("not a slow case")
+				}
+				waits++
 				short := false
 				for _, c := range s.certs {
 					if c.short && time.Now().Before(c.cert.NotAfter.Add(3*time.Second)) {
@@ -831,6 +890,7 @@ func c16OneK(rt *rapid.T, rec *verifx.Recorder, nIss int, auto bool, prevIss []i
 	if !fired {
 		return false
 	}
+	s.noteInterruptedRebuild(ops)
 	if err != nil && written {
 		c.faultAfterRecord = true
 	}
